@@ -325,14 +325,47 @@ pub fn run(prop: &str, tier: &str, replay: Option<&str>) -> i32 {
         });
         rep.add(sec);
     }
+    // C1b''. OID arcs at the base-128 boundaries (127 / 128, 16383 / 16384, 2^21, 2^28, 2^32, 2^35, ... 2^63, u64::MAX) in the
+    // second-from-last and last position of a custom attribute type, a custom extension, an extended key usage and an
+    // otherName type, all in one certificate
+    {
+        let mut arcs: Vec<u64> = vec![0, 1, 39, 40, 47, 48, 127, 128, 129, 255, 256, 16383, 16384, 65535, 65536];
+        for e in [21u32, 28, 31, 32, 35, 42, 49, 56, 63] {
+            arcs.extend([(1u64 << e) - 1, 1u64 << e]);
+        }
+        arcs.push(u64::MAX);
+        let cases: Vec<(u64, bool)> = arcs.iter().flat_map(|a| [(*a, false), (*a, true)]).collect();
+        let ctx = stub_self_ctx(Alg::Ed25519, 1);
+        let sec = Section::new("sweep/oid-arcs", &format!("{} arc values at the base-128 length boundaries, as last and as second-from-last arc of a custom attribute type, a custom extension OID, an extended key usage and an otherName type in one certificate", arcs.len()));
+        run::sweep_cases(&sec, &cases, &|c| format!("arc {} {}", c.0, if c.1 { "second from last" } else { "last" }), &|c| {
+            let tail = |p: &[u64]| -> Vec<u64> {
+                let mut v = p.to_vec();
+                if c.1 {
+                    v.extend([c.0, 7]);
+                } else {
+                    v.push(c.0);
+                }
+                v
+            };
+            let mut st = CertState::default();
+            st.dn = DnSpec(vec![(DnTypeSpec::O, StrKind::Utf8, "o".into()), (DnTypeSpec::Custom(tail(&[1, 3, 6, 1, 4, 1, 55555, 1])), StrKind::Utf8, "v".into())]);
+            st.custom_exts = vec![CustomExtSpec { oid: tail(&[1, 3, 6, 1, 4, 1, 55555, 2]), critical: false, content: vec![0x05, 0x00], acme: false }];
+            st.ekus = vec![EkuSpec::ServerAuth, EkuSpec::Other(tail(&[1, 3, 6, 1, 4, 1, 55555, 3]))];
+            st.sans = vec![SanSpec::Other(tail(&[1, 3, 6, 1, 4, 1, 55555, 4]), "x".into())];
+            judge.judge(&st, &ctx)
+        });
+        rep.add(sec);
+    }
     // C1c. element counts: lists of n elements for n around 127/128, 255/256 (and 0..3, 1000) in every list-typed field
     {
-        let counts: Vec<usize> = vec![0, 1, 2, 3, 16, 126, 127, 128, 129, 255, 256, 257, 1000];
+        // every count up to 40 (a threshold can sit anywhere), then around the powers of two and the DER length-form boundaries
+        let mut counts: Vec<usize> = (0..=40).collect();
+        counts.extend([63, 64, 65, 100, 126, 127, 128, 129, 255, 256, 257, 1000]);
         let fields = ["sans", "ekus", "custom_exts", "crl_dps", "crl_dp uris", "nc permitted", "nc excluded", "dn attributes", "key usages (repeated)"];
         // a distribution point without any URI is a caller-supplied empty GeneralNames: not a conformant parameter set
         let cases: Vec<(usize, usize)> = (0..fields.len()).flat_map(|f| counts.iter().map(move |n| (f, *n))).filter(|c| !(conformant_only && c.0 == 4 && c.1 == 0)).collect();
         let ctx = stub_self_ctx(Alg::Ed25519, 1);
-        let sec = Section::new("sweep/element-counts", "lists of 0,1,2,3,16,126..129,255..257,1000 elements in each list-typed field (alternative names, extended key usages, custom extensions, CRL distribution points and their URIs, permitted / excluded subtrees, name attributes, repeated key usages)");
+        let sec = Section::new("sweep/element-counts", "lists of 0..=40, 63..65, 100, 126..129, 255..257, 1000 elements in each list-typed field (alternative names, extended key usages, custom extensions, CRL distribution points and their URIs, permitted / excluded subtrees, name attributes, repeated key usages)");
         run::sweep_cases(&sec, &cases, &|c| format!("{} x {}", fields[c.0], c.1), &|c| {
             let n = c.1;
             let mut st = CertState::default();
